@@ -9,8 +9,8 @@ Full-strength goal (kept visible):
 What is proved: the round trip per location and shape for *both* flavours (code / specification) under the
 explicit `Encodable` side conditions; `validateParameter = validateSpec` is NOT a theorem of the pinned code:
 it fails inside four decidable exclusion classes, each with a kernel-checked witness below
-(CookieExplode #31, EnumGoType #42, NonDecimalInt, AddlShadow); outside them the two flavours agree
-layer by layer (`parsePrim_eq_specPrim_partial`, `visitPS_impl_eq_spec_partial`, `cookieArr_flavour_partial`, `makeObject_shadow_partial`).
+(CookieExplode #31, EnumGoType #42, AddlShadow, QueryObjAbsent); outside them the two flavours agree
+layer by layer (`parsePrim_eq_specPrim` — full strength since the repair of F-C05-3 —, `visitPS_impl_eq_spec_partial`, `cookieArr_flavour_partial`, `makeObject_shadow_partial`).
 -/
 import KinModel.Style
 import KinModel.Lemmas.C05Str
@@ -24,12 +24,12 @@ namespace KinModel.Style
 /-- integer text round trip through the model of strconv.ParseInt(·, 0, 64) -/
 theorem parsePrim_integer_showInt (i : Int) (hlo : -(2 ^ 63 : Int) ≤ i) (hhi : i < (2 ^ 63 : Int)) :
     parsePrim .integer (showInt i) = .val (.int i) := by
-  have h := parseInt0_showInt 64 i (by simpa using hlo) (by simpa using hhi)
+  have h := parseInt10_showInt 64 i (by simpa using hlo) (by simpa using hhi)
   simp [parsePrim, showInt_ne_nil, h, optPR]
 
 theorem parsePrim_int32_showInt (i : Int) (hlo : -(2 ^ 31 : Int) ≤ i) (hhi : i < (2 ^ 31 : Int)) :
     parsePrim .int32 (showInt i) = .val (.int32 i) := by
-  have h := parseInt0_showInt 32 i (by simpa using hlo) (by simpa using hhi)
+  have h := parseInt10_showInt 32 i (by simpa using hlo) (by simpa using hhi)
   simp [parsePrim, showInt_ne_nil, h, optPR]
 
 /-- the same for the specification's base-ten reader -/
@@ -54,7 +54,7 @@ theorem parsePrim_int32_only (t : PT) (s : Str) (i : Int) (h : parsePrim t s = .
   split at h
   · cases h
   · cases t <;> simp only [optPR] at h
-    · cases hp : parseInt0 64 s <;> simp [hp] at h
+    · cases hp : parseInt10 64 s <;> simp [hp] at h
     · rfl
     · cases hp : parseDec s <;> simp [hp] at h
     · cases hp : parseBoolText s <;> simp [hp] at h
@@ -62,49 +62,18 @@ theorem parsePrim_int32_only (t : PT) (s : Str) (i : Int) (h : parsePrim t s = .
 
 /-! ### code vs specification on one primitive text -/
 
-/-- Outside the class `nonDecimalIntText` the code's primitive parser is the specification's.
-(full statement `∀ t s, parsePrim t s = specPrim t s` is false: `parsePrim_ne_specPrim_witness`) -/
-theorem parsePrim_eq_specPrim_partial (t : PT) (s : Str) (h : nonDecimalIntText s = false) :
-    parsePrim t s = specPrim t s := by
-  have key : ∀ bits, parseInt0 bits s = readDecInt bits s := by
-    intro bits
-    match s, h with
-    | [], _ => rfl
-    | '+' :: r, h =>
-      have : parseUint0 r = readNat r := parseUint0_eq_readNat r (by
-        intro c cs e; subst e; simp [nonDecimalIntText] at h)
-      simp [parseInt0, readDecInt, this]
-    | '-' :: r, h =>
-      have : parseUint0 r = readNat r := parseUint0_eq_readNat r (by
-        intro c cs e; subst e; simp [nonDecimalIntText] at h)
-      simp [parseInt0, readDecInt, this]
-    | c :: r, h =>
-      by_cases h1 : c = '+'
-      · subst h1
-        have : parseUint0 r = readNat r := parseUint0_eq_readNat r (by
-          intro c cs e; subst e; simp [nonDecimalIntText] at h)
-        simp [parseInt0, readDecInt, this]
-      · by_cases h2 : c = '-'
-        · subst h2
-          have : parseUint0 r = readNat r := parseUint0_eq_readNat r (by
-            intro c cs e; subst e; simp [nonDecimalIntText] at h)
-          simp [parseInt0, readDecInt, this]
-        · have : parseUint0 (c :: r) = readNat (c :: r) := parseUint0_eq_readNat _ (by
-            intro c' cs e
-            have e1 : c = '0' := by injection e
-            subst e1
-            have e2 : r = c' :: cs := by injection e
-            subst e2
-            simp [nonDecimalIntText] at h)
-          rw [parseInt0_unsigned bits c r h1 h2, readDecInt_unsigned bits c r h1 h2, this]
+/-- The code's primitive parser is the specification's, on every text and for every type (full strength since the
+repair of finding F-C05-3: `strconv.ParseInt(raw, 10, …)`; before, base 0 read "010" as 8 and "0x1F" as 31). -/
+theorem parsePrim_eq_specPrim (t : PT) (s : Str) : parsePrim t s = specPrim t s := by
   unfold parsePrim specPrim
-  cases t <;> simp [key]
+  cases t <;> simp [parseInt10_eq_readDecInt]
 
-/-- witness (finding NonDecimalInt): "010" is eight for the code, ten for the specification -/
-theorem parsePrim_ne_specPrim_witness :
-    nonDecimalIntText "010".toList = true ∧
-    parsePrim .integer "010".toList = .val (.int 8) ∧ specPrim .integer "010".toList = .val (.int 10) ∧
-    parsePrim .integer "0x1F".toList = .val (.int 31) ∧ specPrim .integer "0x1F".toList = .err := by
+/-- regression (former witness of F-C05-3): non-decimal spellings are decimal or parse errors now -/
+theorem parsePrim_nondecimal_regression :
+    parsePrim .integer "010".toList = .val (.int 10) ∧ parsePrim .integer "0x1F".toList = .err ∧
+    parsePrim .integer "0b11".toList = .err ∧ parsePrim .integer "0o17".toList = .err ∧
+    parsePrim .integer "1_0".toList = .err ∧ parsePrim .int32 "+5".toList = .val (.int32 5) ∧
+    parsePrim .integer "-0".toList = .val (.int 0) ∧ parsePrim .integer "-".toList = .err := by
   decide
 
 /-! ### the decision of ValidateParameter -/
@@ -595,12 +564,12 @@ theorem enum_gotype_witness :
     EnumGoType p2 = true ∧ validateParameter p2 r2 = .schema ∧ validateSpec p2 r2 = .accept := by
   decide
 
-/-- NonDecimalInt: ?id=010 is accepted as 8 where `maximum: 9` — the specification reads 10 and rejects -/
-theorem nondecimal_int_witness :
+/-- regression (former witness of F-C05-3): ?id=010 against `maximum: 9` is ten and is rejected by both sides -/
+theorem nondecimal_int_regression :
     let p : Param := ⟨⟨.query, .form, true⟩, "id".toList, false, false, .leaf (.prim { t := .integer, max := some 9 })⟩
     let r : Req := { query := [("id".toList, ["010".toList])] }
-    validateParameter p r = .accept ∧ validateSpec p r = .schema ∧
-    (decodeStyled impl p.cell p.name false r p.schema).val = .prim (.int 8) := by
+    validateParameter p r = .schema ∧ validateSpec p r = .schema ∧
+    (decodeStyled impl p.cell p.name false r p.schema).val = .prim (.int 10) := by
   decide
 
 /-- AddlShadow: header `p: n,1.5` with properties {n: number}, additionalProperties {integer} -/
